@@ -7,6 +7,11 @@ ALL = ["C%02d" % i for i in range(1, 21)]
 
 # id -> (category, technique, level text, level note, design ref, engine)
 CHECKS = {
+ "C15": ("model_checking",
+         "explicit-state BFS (stateright) to closure over raw TileBBox states per level with a bit-mask set model, plus bounded-exhaustive enumeration of pyramids, high-zoom border boxes and geographic boxes",
+         "Every raw TileBBox state reachable at zoom 0..3 through the mutating methods (both empty encodings and half-empty boxes included) is visited; every query method is compared with the set it denotes in every state and intersect/union/overlaps for every ordered pair of reachable states; pyramids over all combinations of per-level alphabets; all boxes at z<=5 (quick) / z<=6 (thorough) for the geo round trip; border boxes up to z=31 with an interval model; every lon/lat-alphabet box and zero-area box at every tile corner of z<=4/5 for from_geo. Right level: the property is a statement about all boxes and pairs, and the low-zoom space closes.",
+         "Set denotation of raw fields as stated in the evidence assumptions; above zoom 3 only border alphabets are covered; the geographic oracle leaves a don't-care band of 1e-6 tile (+ float slack proportional to 2^z) around every edge.",
+         "3/C15", "E-state"),
  "C20": ("model_checking",
          "explicit-state BFS (stateright) over the real LimitedCache, canonical-state de-duplication, run to closure",
          "All reachable canonical states of the real cache for capacities 1..5 (quick) / 1..8 (thorough) with capacity+2 keys are visited and every per-step clause (size bound, value-under-key, get_or_set result, just-used entry survives eviction) is checked on every transition; capacities 7..64 from three non-initial full states to a stated depth bound. This is the right level because the state space closes once stamps are abstracted to ranks.",
